@@ -250,7 +250,7 @@ def _encode(data: bytes, raw: bool) -> bytes:
 def apply_fault(token, token2, fault, raw_payload: bool):
     """Apply a fault descriptor; returns the faulted token or None when not applicable."""
     k = fault["kind"]
-    if k in ("flip", "flip2", "truncate", "extend", "double", "splice", "empty", "prepend", "pad-halves", "strip-halves", "der"):
+    if k in ("flip", "flip2", "truncate", "truncate-front", "extend", "double", "splice", "empty", "prepend", "pad-halves", "strip-halves", "der"):
         addr = tuple(fault["addr"])
         raw = raw_payload and addr in (("c", 1), ("payload",))
         try:
@@ -270,6 +270,10 @@ def apply_fault(token, token2, fault, raw_payload: bool):
             new = bytes(b)
         elif k == "truncate":
             new = data[:fault["n"]]
+        elif k == "truncate-front":
+            if fault["n"] >= len(data):
+                return None
+            new = data[fault["n"]:]
         elif k == "extend":
             new = data + bytes(fault["tail"])
         elif k == "double":
@@ -440,6 +444,8 @@ def enumerate_faults(token, plan, pairs, stride_hp: int):
         if kind == "signature":
             for n in range(len(data)):
                 yield {"kind": "truncate", "addr": list(addr), "seg": kind, "n": n}
+            for n in (1, 2, 3):
+                yield {"kind": "truncate-front", "addr": list(addr), "seg": kind, "n": n}
             for tail in ([0], [0, 0], [1, 2, 3], [255]):
                 yield {"kind": "extend", "addr": list(addr), "seg": kind, "tail": tail}
             yield {"kind": "double", "addr": list(addr), "seg": kind}
@@ -475,7 +481,7 @@ def fault_class(fault) -> str:
     k = fault["kind"]
     if k in ("flip", "flip2"):
         return "flip"
-    if k in ("truncate", "extend", "double", "empty", "prepend", "pad-halves", "strip-halves", "der"):
+    if k in ("truncate", "truncate-front", "extend", "double", "empty", "prepend", "pad-halves", "strip-halves", "der"):
         return "truncate"
     if k == "splice":
         return "splice"
@@ -487,7 +493,7 @@ def fault_class(fault) -> str:
 def finding_key(plan, fault, outcome) -> str:
     k = fault["kind"]
     seg = fault.get("seg", "")
-    fam = plan["members"][0]["alg"][:2] if k in ("flip", "flip2", "truncate", "extend", "double", "prepend", "pad-halves", "strip-halves", "der") and seg == "signature" else ""
+    fam = plan["members"][0]["alg"][:2] if k in ("flip", "flip2", "truncate", "truncate-front", "extend", "double", "prepend", "pad-halves", "strip-halves", "der") and seg == "signature" else ""
     return "C01:" + ":".join(x for x in (k, seg, fam, plan["ser"], outcome) if x)
 
 
@@ -496,6 +502,19 @@ def mint(case):
     plan = case["plan"]
     keymode = case["keymode"] if len(plan["members"]) == 1 else "keyset_kid"
     mplan = jp.materialize(plan, keymode)
+    m0 = mplan["members"][0]
+    if (case["minter"] == "ref" and len(mplan["members"]) == 1 and m0["alg"] in ("RS256", "RS384", "RS512", "PS256", "PS384", "PS512") and plan["b64"] is None and case["pairs"][0][0] % 2 == 0
+            and gk.key_from_record(m0["key"])["n"].bit_length() <= 2048):
+        # one in 256 RSA signatures starts with a zero octet: look for such a token by varying the payload (PKCS#1 v1.5 is deterministic)
+        base = bytes.fromhex(mplan["payload_hex"])
+        for i in range(1500):
+            trial = dict(mplan, payload_hex=(base + b"%d" % i).hex())
+            tok = jp.ref_sign(trial, case["spellings"])
+            sig = tok.rsplit(".", 1)[1] if isinstance(tok, str) else (tok.get("signature") or tok["signatures"][0]["signature"])
+            if rb.decode(sig)[0] == 0:
+                mplan = trial
+                plan = dict(plan, payload_hex=trial["payload_hex"])
+                break
     if case["minter"] == "ref":
         token = jp.ref_sign(mplan, case["spellings"])
         if isinstance(token, str) and plan["b64"] is False and jp.payload_class(bytes.fromhex(plan["payload_hex"])) != "urlsafe":
@@ -574,6 +593,7 @@ def run_shard(ctx, spec):
         except UnicodeDecodeError:
             ctx.dontcare("b64=false non-utf8")
             return
+        pl = bytes.fromhex(mplan["payload_hex"])
         ents = entries_for(mplan)
         fault_ents = [e for e in ents if not e.endswith(("+otherpayload", "+again"))]
         entry = fault_ents[case["entry"] % len(fault_ents)]
